@@ -5,7 +5,8 @@
 // Case: {"op":"types"}                                    → {"types": {module: <type json>}}
 //       {"op":"scan", "asset"|"base_hex", "edits":[..], "process_memory":b, "layout":null|[..],
 //        "modules":["pe",..], "probes":[{"tag":"p0","rule":"<condition text>","imports":["pe"]}..],
-//        "keep":K, "keep_dict":KD, "keep_bytes":KB}
+//        "keep":K, "keep_dict":KD, "keep_bytes":KB, "shifts":[s..],
+//        "user_data": {"pe_is_signed": b | "pe_is_signed_none": true, "console_override": b}}
 //   → {"dumps": {module: dump}, "hash1": {module: h}, "hash2": {module: h}, "lens": {module: {path: n}},
 //      "nonconf": {module: null|path}, "probes": [{"compiled":b, "err":s?, "logs":[..]}], "size": n, "error": e}
 #[path = "../modval.rs"]
@@ -101,6 +102,19 @@ pub fn run(case: &Value) -> Value {
     }
     let mut scanner = c.finalize();
     scanner.set_scan_params(ScanParams::default().process_memory(get_bool(case, "process_memory")));
+    // user data given to the modules through the public API (Scanner::set_module_data), for every module of this
+    // build that accepts some: pe (PeData.is_signed) and console (ConsoleData: per-scan callback override).
+    // (cuckoo's CuckooData needs the `cuckoo` feature, which the harness does not enable.)
+    let ud = &case["user_data"];
+    if let Some(b) = ud["pe_is_signed"].as_bool() {
+        scanner.set_module_data::<boreal::module::Pe>(boreal::module::PeData { is_signed: Some(b) });
+    } else if ud["pe_is_signed_none"].as_bool() == Some(true) {
+        scanner.set_module_data::<boreal::module::Pe>(boreal::module::PeData { is_signed: None });
+    }
+    if ud["console_override"].as_bool() == Some(true) {
+        let l3 = logs.clone();
+        scanner.set_module_data::<Console>(boreal::module::ConsoleData::new(move |s| l3.lock().unwrap().push(s)));
+    }
 
     let (err1, r1) = scan(&scanner, case, &input, 0);
     let logs1: Vec<String> = std::mem::take(&mut *logs.lock().unwrap());
